@@ -243,14 +243,14 @@ where
         step_budget: 100_000,
     });
     sched::token_prepare(nt, exec_no, Strat::Script, false);
-    let mut script = vec![(0usize, hs::OP_GAP), (0, Site::FALLBACK_LOAD as u16), (1, park)];
+    let mut script = vec![(0usize, hs::USER), (0, Site::FALLBACK_LOAD as u16), (1, park)];
     for _ in 0..(k + 2) {
-        script.push((0, hs::OP_GAP)); // L1 finishes, k+1 further loads
+        script.push((0, hs::USER)); // L1 finishes, k+1 further loads
     }
-    script.push((2, hs::OP_GAP)); // W2: a whole store
+    script.push((2, hs::USER)); // W2: a whole store
     script.push((0, Site::FALLBACK_LOAD as u16)); // L_last: X published again
-    script.push((1, hs::OP_GAP)); // W: the rest of its store
-    script.push((0, hs::OP_GAP)); // L_last finishes
+    script.push((1, hs::USER)); // W: the rest of its store
+    script.push((0, hs::USER)); // L_last finishes
     sched::set_script(script);
     let desc = json!({"workload": "wrap/full-cycle", "value": V::NAME, "strategy": S::NAME, "exec_no": exec_no, "wrap_on_slow_load": k + 1,
         "writer_parked_at": sched::site_name(park)});
@@ -283,13 +283,13 @@ where
                 w.do_op(W::LoadDrop);
                 let ok = arc_swap::verif::set_thread_generation(preset_for(k));
                 assert!(ok, "harness: cannot preset the generation");
-                sched::step(hs::OP_GAP);
+                sched::step(hs::USER);
                 w.do_op(W::LoadDrop); // L1
                 let x = arc_swap::verif::thread_generation().expect("harness: generation");
-                sched::step(hs::OP_GAP);
+                sched::step(hs::USER);
                 for _ in 0..(k + 1) {
                     w.do_op(W::LoadDrop);
-                    sched::step(hs::OP_GAP);
+                    sched::step(hs::USER);
                 }
                 let now = arc_swap::verif::thread_generation().expect("harness: generation");
                 if now < x.wrapping_sub(4) {
@@ -298,10 +298,10 @@ where
                     w.do_op(W::LoadDrop); // L_last
                     same_gen.store(arc_swap::verif::thread_generation() == Some(x), SeqCst);
                 }
-                sched::step(hs::OP_GAP);
+                sched::step(hs::USER);
             } else {
                 w.do_op(W::Store);
-                sched::step(hs::OP_GAP);
+                sched::step(hs::USER);
             }
             end_phase(w, &sh2);
         }));
